@@ -157,6 +157,17 @@ def rule_queue_order(ck):
                 if isinstance(e_, (ast.ListComp, ast.GeneratorExp)) and len(e_.generators) == 1 and not e_.generators[0].ifs and \
                         _canon(_strip_seq(e_.generators[0].iter)) in (want, f"deque({want})"):
                     ok = True
+            if not ok and isinstance(itx, ast.Call) and call_name(itx) == "zip" and itx.args:
+                # zip(queue, <lists built element by element from the same queue>): walks the queue in its order
+                from ..flow import _strip_seq
+
+                def from_queue(a_):
+                    a_ = _strip_seq(a_)
+                    if _canon(a_) in (want, f"deque({want})"):
+                        return True
+                    return isinstance(a_, (ast.ListComp, ast.GeneratorExp)) and len(a_.generators) == 1 and not a_.generators[0].ifs and \
+                        _canon(_strip_seq(a_.generators[0].iter)) in (want, f"deque({want})")
+                ok = _canon(_strip_seq(itx.args[0])) in (want, f"deque({want})") and all(from_queue(a_) for a_ in itx.args[1:])
             ck.require(ok, "C08.R2", f, lp.stmt.iter, ok="iterates the sorted queue", bad=f"the loop iterates `{it[:80]}`, not the queue returned by the sort function: priority order is ignored",
                        sink=f"{kind}:iter")
             body = cfg.loop_region(lp)
